@@ -88,6 +88,14 @@ func isCompoundArray(typ types.Type) bool {
 	return ok && !isByte(t.Elem())
 }
 
+func isByteArray(typ types.Type) bool {
+	if typ == nil {
+		return false
+	}
+	t, ok := typ.Underlying().(*types.Array)
+	return ok && isByte(t.Elem())
+}
+
 // isByteSliceOrArray reports whether typ is []byte or [N]byte, both of which
 // are represented as a Buffer.
 func isByteSliceOrArray(typ types.Type) bool {
